@@ -232,8 +232,21 @@ func c12Run(c *sink, cs *c12Case, everyStep bool) (*c12Result, bool) {
 	}
 	pl, cm := r.StoreIDStrings()
 	why, unjust := StoreLinearizable(r.History, obs, pl, cm)
+	if why != "" && os.Getenv("C12_DEBUG") != "" {
+		for _, h := range r.History {
+			fmt.Fprintf(os.Stderr, "%+v\n", *h)
+		}
+		fmt.Fprintf(os.Stderr, "%+v\n", obs)
+		for _, l := range r.RenderTrace() {
+			fmt.Fprintln(os.Stderr, l)
+		}
+	}
 	if why != "" {
-		c.Fail("oracle", "C12:lin:"+c12LinClass(why), "history is not linearizable: "+why, replay())
+		key := "C12:lin:" + c12LinClass(why)
+		if StoreLinearizableModuloRemovedPool(r.History, obs, pl, cm) {
+			key = "C12:lin:commit-into-removed-pool"
+		}
+		c.Fail("oracle", key, "history is not linearizable: "+why, replay())
 		return res, false
 	}
 	if unjust != "" {
@@ -409,6 +422,7 @@ func c12Fixed() []*c12Case {
 		mk("load vs remove of its pool", []StoreOp{load(1, 0, 3, 103)}, []StoreOp{removePool(1)}),
 		mk("rename vs remove", []StoreOp{renamePool(1, 2)}, []StoreOp{removePool(1)}),
 		mk("three loads", []StoreOp{load(1, 0, 3, 103)}, []StoreOp{load(1, 0, 4, 104)}, []StoreOp{load(1, 0, 5, 105)}),
+		mk("two deletes of one object vs remove of the pool", []StoreOp{del(1, 0, 103, 1)}, []StoreOp{del(1, 0, 104, 1)}, []StoreOp{removePool(1)}),
 		mk("two loads each", []StoreOp{load(1, 0, 3, 103), load(1, 0, 5, 105)}, []StoreOp{load(1, 0, 4, 104), del(1, 0, 106, 4)}),
 	}
 }
@@ -506,7 +520,7 @@ func c12Random(c *Ctx) *c12Case {
 
 func runC12(c0 *Ctx) {
 	c := &sink{c: c0}
-	c0.Rule("2–4 real lake handles over one in-memory storage.Engine with a cooperative scheduler; a case = per-client lists of 1–3 API operations (load, delete, branch create/remove, pool create/rename/remove) after a sequential setup + a schedule of storage operations; enum: all interleavings of 11 fixed conflict scenarios up to a preemption budget (preemptions before reads of immutable files are skipped); rand: random scenarios under random burst schedules; distinct = distinct (scenario, performed schedule); non-trivial = at least two clients overlap")
+	c0.Rule("2–4 real lake handles over one in-memory storage.Engine with a cooperative scheduler; a case = per-client lists of 1–3 API operations (load, delete, branch create/remove, pool create/rename/remove) after a sequential setup + a schedule of storage operations; enum: all interleavings of 12 fixed conflict scenarios up to a preemption budget (preemptions before reads of immutable files are skipped); rand: random scenarios under random burst schedules; distinct = distinct (scenario, performed schedule); non-trivial = at least two clients overlap")
 	if c0.Replay != nil {
 		var cs c12Case
 		if err := json.Unmarshal(c0.Replay, &cs); err != nil || len(cs.Clients) == 0 {
